@@ -236,11 +236,12 @@ class Engine:
         a = c.args if isinstance(c, Contract) else c.forall
         a = dict(a(**cfg) if callable(a) else a)
         g = getattr(c, 'ghost', None) or {}
-        g = g(**cfg) if callable(g) else g
-        for k, v in g.items():
-            a[k] = v
+        g = dict(g(**cfg) if callable(g) else g)
         self._ghosts = set(g)
-        return a
+        # ghosts are built first (arguments may be computed from them)
+        for k, v in a.items():
+            g[k] = v
+        return g
 
     # ------------------------------------------------------------ contract
     def verify(self, c):
@@ -273,16 +274,50 @@ class Engine:
         opts = getattr(c, 'options', None) or {}
         it.concrete_number_lengths = bool(opts.get('concrete_number_lengths'))
         for nm, sp in specs.items():
+            if getattr(sp, 'computed', False):
+                continue
             args[nm] = sp.sym(B, nm)
             env.vars[nm] = args[nm]
         # leaves from constructors count as inputs; side obligations raised
         # while building inputs are preconditions of the constructors
         ctx.side = []
         npc = len(ctx.pc)
-        for r in (c.requires if isinstance(c, Contract) else c.given):
+        reqs = list(c.requires if isinstance(c, Contract) else c.given)
+        deferred = []
+        has_computed = any(getattr(sp, 'computed', False)
+                           for sp in specs.values())
+        for r in reqs:
+            if has_computed:
+                try:
+                    v = it.ops.truth_value(eval_clause(it, r, env))
+                except PyRaise as e:
+                    if e.exc.cls.isa('NameError'):
+                        deferred.append(r)
+                        continue
+                    raise
+            else:
+                v = it.ops.truth_value(eval_clause(it, r, env))
+            ctx.assume(v)
+        req_terms = list(ctx.pc[npc:])
+        # arguments computed from the others (e.g. a file produced by the
+        # real writer) are built under the preconditions of the others
+        ordered = {}
+        for nm, sp in specs.items():
+            if getattr(sp, 'computed', False):
+                args[nm] = sp.sym(B, nm)
+                env.vars[nm] = args[nm]
+        if has_computed:
+            # keep declaration order of the arguments
+            ordered = {nm: args[nm] for nm in specs}
+            args.clear()
+            args.update(ordered)
+            ctx.side = []
+        npc2 = len(ctx.pc)
+        for r in deferred:
             v = it.ops.truth_value(eval_clause(it, r, env))
             ctx.assume(v)
-        self._requires_terms = list(B.assumptions) + list(ctx.pc[npc:])
+        req_terms += list(ctx.pc[npc2:])
+        self._requires_terms = list(B.assumptions) + req_terms
         pr = PathResult()
         pr.ctx = ctx
         pr.leaves = B.leaves
